@@ -291,3 +291,9 @@ def new_bytearray(items=()):
     if S.ctx is not None:
         return symbytes.SymByteArray(list(items))
     return bytearray(items)
+
+
+def scheduler():
+    """install a deterministic thread scheduler for the lock/condition models (see symx.sched)"""
+    from .sched import Scheduler
+    return Scheduler()
